@@ -4,6 +4,10 @@ import json
 props=[json.loads(l) for l in open('/verif/properties.jsonl')]
 # id -> (technique, level text, level note)
 CLAIMED={
+ 'C07':("explicit-state breadth-first search over the real transition functions (histories), cross-checked with a stateright model of the same transition system",
+        "all chains of library operations up to depth 3/4 from 26 initial documents; every state deduplicated on full bytes; every transition validated against the tree model and the strict validator; stateright BFS must agree on unique-state count and verdict at depth 2",
+        "depth bound and successor size cap (checked but not expanded beyond the cap)"),
+
  'C08':("exhaustive enumeration of programs x inputs (paths up to a step bound x document universe) against an independent tree evaluator",
         "every path of the enumerated grammar fragments applied to every document of the universe/subset; item sequences compared in order with repetitions; three-valued where the README is silent",
         "bounded path length (<=3/4 steps, one filter per path, expression depth<=2) and document universe"),
